@@ -660,8 +660,8 @@ func (self *Node) getState() MetadataState {
 		if s := fork.getState(); s == Failed {
 			return Failed
 		} else if s != Complete && s != DisabledState {
+			// Keep looking: a later fork may have failed.
 			complete = false
-			break
 		} else if s != DisabledState {
 			disabled = false
 		}
